@@ -261,31 +261,36 @@ def d3(chk, prog):
 
 def d4(chk, prog):
     chk.clause("D4", "into_ranges returns a Series with one value per query range on every path; summary dispatch")
-    chk.rule("return-kind", "every return of into_ranges (function and method) is a Series expression; returning a table parameter is a kind error")
-    res = Resolver(prog)
-    for qn in ("skgenome.intersect.into_ranges", "skgenome.gary.GenomicArray.into_ranges"):
-        fi = prog.fn(qn)
-        rets = [n for n in own_nodes(fi.node) if isinstance(n, ast.Return)]
-        chk.floor(f"returns of {qn}", len(rets), 2)
-        for r in rets:
-            if isinstance(r.value, ast.Call) and any(c.qn == "skgenome.intersect.into_ranges" for c in res.resolve_call(r.value, fi)) and qn != "skgenome.intersect.into_ranges":
-                chk.ok("return-kind", f"{fi.name}: delegates to skgenome.intersect.into_ranges (checked above)", where=fi.loc(r))
-                continue
-            kind = pdrules.return_kind(prog, fi, r.value)
-            if kind == "unknown":
-                raise AnalysisError(f"C07-D4: cannot classify `return {norm(r.value)}` in {qn}")
-            chk.decide(kind == "Series", "return-kind", f"{fi.name}: return {norm(r.value)[:50]} is a {kind}", f"{qn}::return {norm(r.value)[:60]}", fi.loc(r),
-                       f"into_ranges promises one value per range of `dest` (a Series) but this path returns a {kind}; a caller that stores the result "
-                       "as a column (e.g. segments['baf'] = ...) gets a frame", witness=dict(example="empty source or dest"))
-    # the slices feeding the result are 'outer', keep_empty=True
+    chk.rule("return-kind", "into_ranges interpreted on literal tables: the result is a Series with one value per row of `dest`, labelled like `dest`")
     fi = prog.fn("skgenome.intersect.into_ranges")
-    calls = [n for n in own_nodes(fi.node) if isinstance(n, ast.Call) and norm(n.func) == "iter_slices"]
-    chk.floor("iter_slices call in into_ranges", len(calls), 1)
-    for c in calls:
-        args = [norm(a) for a in c.args] + [f"{k.arg}={norm(k.value)}" for k in c.keywords]
-        ok = len(c.args) >= 4 and norm(c.args[0]) == "source" and norm(c.args[1]) == "dest" and norm(c.args[2]) == "'outer'" and norm(c.args[3]) == "True"
-        chk.decide(ok, "return-kind", "into_ranges slices: iter_slices(source, dest, 'outer', True)", f"{fi.qn}::iter_slices args", fi.loc(c),
-                   f"one slice per dest row needs mode 'outer' and keep_empty=True; got ({', '.join(args)})")
+    tbk = Table(chk, "return-kind", "into_ranges on literal tables (index labels that are not positions; empty source / empty dest; a chromosome missing from the source; nested source rows)", fi.loc(), fi.qn)
+
+    def mkt(rows, labels):
+        df = DF({"chromosome": Vec([r[0] for r in rows], aligned=True), "start": Vec([r[1] for r in rows], aligned=True), "end": Vec([r[2] for r in rows], aligned=True),
+                 "v": Vec([r[3] for r in rows], aligned=True)}, len(rows), "any")
+        df.exact, df.labels = True, list(labels)
+        return df
+    src_full = [("a", 0, 10, "s0"), ("a", 10, 20, "s1"), ("a", 12, 15, "s2"), ("a", 30, 40, "s3"), ("c", 0, 5, "s4")]
+    dests = {"two hits / one hit / none / other chromosome": [("a", 5, 14, 0), ("a", 35, 36, 0), ("a", 20, 30, 0), ("b", 0, 100, 0), ("c", 0, 1, 0)],
+             "single destination row": [("a", 0, 100, 0)], "empty destination": []}
+    for (dlabel, drows), (slabel, srows) in itertools.product(dests.items(), (("five source rows", src_full), ("empty source", []))):
+        W.reset()
+        it = Interp(prog)
+        dl = [7, 3, 11, 2, 5][:len(drows)]
+        dest = mkt(drows, dl)
+        src = mkt(srows, [20 + i for i in range(len(srows))])
+        out = tbk.guard(lambda: it.run(fi.qn, [src, dest, "v", "DEFAULT", (lambda ser: ("SUMMARY",) + tuple(ser.v))]), f"{dlabel} / {slabel}")
+        if out is None:
+            continue
+        want = []
+        for c, s_, e_, _ in drows:
+            hits = [r[3] for r in srows if r[0] == c and r[2] > s_ and r[1] < e_]
+            want.append("DEFAULT" if not hits else (hits[0] if len(hits) == 1 else ("SUMMARY",) + tuple(hits)))
+        ok = isinstance(out, Vec) and list(out.v) == want and (out.fresh or out.aligned)
+        labelled = isinstance(out, Vec) and (out.labels == dl or (not drows and not out.v))
+        tbk.cell(ok and labelled, dict(destination=dlabel, source=slabel, values=list(out.v) if isinstance(out, Vec) else repr(out)[:80], want=want,
+                                       result_labels=getattr(out, "labels", None), destination_labels=dl))
+    tbk.done("into_ranges does not return one value per destination row (default / the value / the summary), as a Series labelled like the destination rows")
     # dispatch table by abstract interpretation
     W.reset()
     tb = Table(chk, "summary-dispatch", "into_ranges: default / single value / summary by element type", fi.loc(), fi.qn + "::dispatch")
@@ -306,6 +311,7 @@ def d4(chk, prog):
     class Frame:
         def __init__(self, col):
             self.col = col
+            self.index = ("INDEX-OF", id(self))
 
         def abs_getitem(self, it, k):
             return self.col
@@ -500,6 +506,7 @@ def run(chk):
 
 _I = "skgenome/intersect.py"
 MUTANTS = [
+    dict(name="regress: into_ranges returns its values on a fresh 0..n-1 index (pre-fix code)", edits=[("skgenome/intersect.py", "        return pd.Series([default] * len(dest), index=dest.index)", "        return pd.Series([default] * len(dest))"), ("skgenome/intersect.py", "    return pd.Series(result, index=dest.index)", "    return pd.Series(result)")]),
     dict(name="twin: trim clips through assign", expect="silent", file=_I, old="            if start_val:\n                subtable.start = subtable.start.clip(lower=start_val)", new="            if start_val:\n                subtable = subtable.assign(start=subtable.start.clip(lower=start_val))"),
     dict(name="seeded C07c: one-chromosome shortcut when the other table merely covers it", file=_I, old="    if len(table_chr) == 1 and table_chr == other_chr:", new="    if len(table_chr) == 1 and table_chr <= other_chr:"),
     dict(name="seeded C13d: shortcut by .any() instead of set equality", file=_I, old="""    table_chr, other_chr = set(table["chromosome"]), set(other["chromosome"])
@@ -515,7 +522,7 @@ MUTANTS = [
     dict(name="twin: shortcut tested with nunique and set equality", expect="silent", file=_I, old="    table_chr, other_chr = set(table[\"chromosome\"]), set(other[\"chromosome\"])\n    if len(table_chr) == 1 and table_chr == other_chr:", new="    table_chr, other_chr = set(table[\"chromosome\"].unique()), set(other[\"chromosome\"].unique())\n    if table[\"chromosome\"].nunique() == 1 and table_chr == other_chr:"),
     dict(name="keep_empty ignored for absent chromosomes", file=_I, old="            elif keep_empty:\n                yield chrom, ctable, None", new="            else:\n                yield chrom, ctable, None"),
     dict(name="regress: bisect end on nested rows when ends missing", file=_I, old="        if not table.end.is_monotonic_increasing:", new="        if ((ends is not None and len(ends)) and (starts is not None and len(starts))) and not table.end.is_monotonic_increasing:"),
-    dict(name="regress: into_ranges returns dest", file=_I, old="        return pd.Series([default] * len(dest))", new="        return dest"),
+    dict(name="regress: into_ranges returns dest", file=_I, old="        return pd.Series([default] * len(dest), index=dest.index)", new="        return dest"),
     dict(name="outer start: side right dropped", file=_I, old='            start_idxs = table.end.searchsorted(starts, "right")', new="            start_idxs = table.end.searchsorted(starts)"),
     dict(name="inner end: side right dropped", file=_I, old='            end_idxs = table.end.searchsorted(ends, "right")', new="            end_idxs = table.end.searchsorted(ends)"),
     dict(name="outer end searches end column", file=_I, old="            end_idxs = table.start.searchsorted(ends)\n", new="            end_idxs = table.end.searchsorted(ends)\n"),
